@@ -25,8 +25,9 @@ impl<K, V> VMap<K, V> {
     fn clear(&mut self)
         ensures final(self)@ == Map::<K,V>::empty()
     { unimplemented!() }
+    // a hash map in a 64-bit address space cannot hold 2^60 entries (>= 16 bytes each): sums of a few lengths do not overflow
     #[verifier::external_body]
-    fn len(&self) -> (r: usize) { unimplemented!() }
+    fn len(&self) -> (r: usize) ensures r < 0x1000_0000_0000_0000 { unimplemented!() }
 }
 
 // R2: FxHashSet<K>
@@ -584,6 +585,10 @@ spec fn cache_ok_count(c: Map<ZddRef, usize>, nodes: Seq<ZddNode>) -> bool {
 proof fn lemma_cb_empty(op: int, nodes: Seq<ZddNode>)
     ensures cache_ok_bin(op, Map::<(ZddRef, ZddRef), ZddRef>::empty(), nodes)
 { reveal(cache_ok_bin); }
+
+proof fn lemma_cc_empty(nodes: Seq<ZddNode>)
+    ensures cache_ok_count(Map::<ZddRef, usize>::empty(), nodes)
+{ reveal(cache_ok_count); }
 
 proof fn lemma_cb_get(op: int, c: Map<(ZddRef, ZddRef), ZddRef>, nodes: Seq<ZddNode>, a: ZddRef, b: ZddRef)
     requires cache_ok_bin(op, c, nodes), c.contains_key((a, b)), 0 <= op <= 2,
